@@ -133,7 +133,7 @@ def serializer_case(rng: random.Random, max_len: int = 50, p_rdflib: float = 0.4
     if rng.random() < p_ns and cfg["entry"] in store_entries:
         ns = bindings(rng)
         cfg["ns"] = True
-        cfg["params_build"] = rng.choice(["direct", "direct", "version1", "replace"])
+        cfg["params_build"] = rng.choice(["direct", "direct", "version1", "replace", "positional"])
         n, p, d = cfg["preset"]
         np_, nn, nd = gen.need_of(stmts, cfg["physical"], p > 0, [("ns", a, b) for a, b in ns])
         cfg["preset"] = (max(n, nn, 8), max(p, np_) if p else 0, d)
@@ -266,7 +266,7 @@ def multi_sink_case(rng: random.Random, with_ns: bool = True, empty_later_sink: 
     cfg = {"integration": integ, "physical": phys, "logical": logical, "frame_size": rng.choice([1, 3, 250]),
            "preset": preset, "delimited": True, "generalized": False, "rdf_star": False, "ns": with_ns,
            "stream_name": "", "via": rng.choice(["frames", "file"]), "collect": rng.random() < .3,
-           "params_build": rng.choice(["direct", "direct", "version1", "replace"])}
+           "params_build": rng.choice(["direct", "direct", "version1", "replace", "positional"])}
     kind = gen.rng_for("sinks-as", repr(groups)).choice(["generator", "generator", "list", "tuple"])
     if kind != "generator":
         cfg["sinks_as"] = kind
